@@ -7,6 +7,7 @@ labelled bounded in evidence, never counted as proved.
 run(tier, seed, prop) explores the histories relevant for property `prop`."""
 from __future__ import annotations
 
+import io
 import math
 import os
 import random
@@ -120,9 +121,13 @@ def bloom_histories(prop, tier, rnd, failures, stats, tmp):
                 f.add(key)
                 added.append(key)
                 hist.append(("add", repr(key)))
-            elif op < 0.7 and kind in ("expanding",):
-                f.push()
-                hist.append(("push",))
+            elif op < 0.7 and kind in ("expanding", "rotating"):
+                if kind == "rotating" and rnd.random() < 0.4 and len(f._blooms) > 1:
+                    f.pop()
+                    hist.append(("pop",))
+                else:
+                    f.push()
+                    hist.append(("push",))
             elif op < 0.85:
                 f2 = reload_bloom(f, kind, hf, rnd, path, tmp, hist)
                 if f2 is not None:
@@ -149,6 +154,18 @@ def bloom_histories(prop, tier, rnd, failures, stats, tmp):
                     if not f.check(k):
                         _fail(failures, prop, "added_key_reported_present", repr(k), hist)
                         break
+            if kind != "disk":
+                # all channels of one structure carry the same payload, at every point of the history
+                blob = bytes(f)
+                buf = io.BytesIO()
+                f.export(buf)
+                if buf.getvalue() != blob:
+                    _fail(failures, prop, "channels_carry_the_same_payload", "bytes() vs export(file object)", hist)
+                if rnd.random() < 0.3:
+                    p3 = os.path.join(tmp, "same.bin")
+                    f.export(p3)
+                    if open(p3, "rb").read() != blob:
+                        _fail(failures, prop, "channels_carry_the_same_payload", "bytes() vs export(path)", hist)
         if kind == "mem" and hf is None and all(isinstance(k, str) and k.isascii() for k in added):
             # C06: independent writer / reader
             distinct = added
@@ -197,8 +214,13 @@ def reload_bloom(f, kind, hf, rnd, path, tmp, hist):
         f.export(p2)
         return ExpandingBloomFilter(filepath=p2, hash_function=hf)
     if kind == "rotating":
-        hist.append(("reload", "bytes"))
-        return RotatingBloomFilter.frombytes(bytes(f), max_queue_size=f.max_queue_size, hash_function=hf)
+        ch = rnd.choice(["bytes", "file"])
+        hist.append(("reload", ch))
+        if ch == "bytes":
+            return RotatingBloomFilter.frombytes(bytes(f), max_queue_size=f.max_queue_size, hash_function=hf)
+        p2 = os.path.join(tmp, "x.rbf")
+        f.export(p2)
+        return RotatingBloomFilter(filepath=p2, max_queue_size=f.max_queue_size, hash_function=hf)
     if kind == "disk":
         hist.append(("close+reopen",))
         cwd = os.getcwd()
@@ -221,6 +243,8 @@ def compare_bloom(prop, a, b, kind, added, failures, hist):
         return
     if bytes(a) != bytes(b):
         _fail(failures, prop, "reexport_is_byte_identical", "", hist)
+    if kind in ("expanding", "rotating") and (a.expansions != b.expansions or len(a._blooms) != len(b._blooms)):
+        _fail(failures, prop, "same_number_of_sub_filters", f"{a.expansions} vs {b.expansions}", hist)
     if a.elements_added != b.elements_added:
         _fail(failures, prop, "same_element_count", f"{a.elements_added} vs {b.elements_added}", hist)
     for k in KEYS:
@@ -454,9 +478,79 @@ def cuckoo_zero_fingerprint(prop, tier, rnd, failures, stats, tmp):
                              "history": [["new", cls.__name__, 4, 2], ["add", "zero"], ["add", "k1"], ["reload", "bytes"]]})
 
 
+def expanding_full_boundary(prop, tier, rnd, failures, stats, tmp):
+    """export taken exactly when the newest sub-filter is full (I a multiple of est_elements), every channel; and
+    geometries whose bit count is a multiple of 8"""
+    for cls in (ExpandingBloomFilter, RotatingBloomFilter):
+        for n, p in ((1, 0.5), (2, 0.3), (3, 0.2), (5, 0.1), (10, 0.01), (10, 0.05), (5, 0.05)):
+            for mult in (1, 2, 3):
+                extra = {"max_queue_size": 4} if cls is RotatingBloomFilter else {}
+                f = cls(n, p, **extra)
+                hist = [("new", cls.__name__, n, p)]
+                i = 0
+                while f.elements_added < n * mult and i < 400:
+                    f.add(f"key-{i}")
+                    i += 1
+                hist.append(("add distinct keys until elements_added ==", n * mult))
+                stats["steps"] += 1
+                blob = bytes(f)
+                p2 = os.path.join(tmp, "full.ebf")
+                f.export(p2)
+                for how in ("bytes", "file"):
+                    g = cls.frombytes(blob, **extra) if how == "bytes" else cls(filepath=p2, **extra)
+                    if g.expansions != f.expansions or len(g._blooms) != len(f._blooms):
+                        _fail(failures, prop, "same_number_of_sub_filters", f"{how}: {g.expansions} vs {f.expansions}", hist)
+                    if bytes(g) != blob:
+                        _fail(failures, prop, "reexport_is_byte_identical", how, hist)
+                    if g.elements_added != f.elements_added:
+                        _fail(failures, prop, "same_element_count", how, hist)
+                    for k in range(i):
+                        if f.check(f"key-{k}") != g.check(f"key-{k}"):
+                            _fail(failures, prop, "same_answers", f"{how}: key-{k}", hist)
+                            break
+
+
+def cuckoo_error_rate_roundtrip(prop, tier, rnd, failures, stats, tmp):
+    """filters sized by error rate with every bucket size 1..6: the re-supplied error rate must give back the same
+    fingerprint width and the same answers on the bytes and the file channel"""
+    for cls in (CuckooFilter, CountingCuckooFilter):
+        for bs in range(1, 7):
+            for er in (0.2, 0.05, 0.01, 0.003):
+                f = cls.init_error_rate(er, capacity=8, bucket_size=bs, max_swaps=20)
+                hist = [("init_error_rate", cls.__name__, er, 8, bs)]
+                keys = [f"m{i}" for i in range(rnd.randrange(1, 12))]
+                stored = []
+                for k in keys:
+                    if f._generate_fingerprint_info(k)[2] == 0:
+                        continue            # the format cannot store fingerprint 0 (known finding)
+                    f.add(k)
+                    stored.append(k)
+                stats["steps"] += 1
+                blob = bytes(f)
+                p2 = os.path.join(tmp, "er.cko")
+                f.export(p2)
+                for how in ("bytes", "file"):
+                    try:
+                        g = cls.frombytes(blob, error_rate=er) if how == "bytes" else cls.load_error_rate(er, p2)
+                    except Exception as e:   # noqa: BLE001
+                        _fail(failures, prop, "reload_reproduces_the_filter", f"{how}: {type(e).__name__}: {e}", hist)
+                        continue
+                    if g.fingerprint_size_bits != f.fingerprint_size_bits or g.bucket_size != f.bucket_size:
+                        _fail(failures, prop, "resupplied_error_rate_gives_the_same_fingerprint_width",
+                              f"{how}: {g.fingerprint_size_bits} vs {f.fingerprint_size_bits}", hist)
+                    if bytes(g) != blob or g.elements_added != f.elements_added:
+                        _fail(failures, prop, "reload_reproduces_the_filter", how, hist)
+                    for k in stored + ["absent-1", "absent-2"]:
+                        if bool(g.check(k)) != bool(f.check(k)):
+                            _fail(failures, prop, "same_answers", f"{how}: {k}", hist)
+                            break
+
+
 SUITES = {
-    "C01": [bloom_histories], "C02": [sketch_histories], "C03": [cuckoo_histories],
-    "C05": [bloom_histories, sketch_histories, cuckoo_histories, cuckoo_zero_fingerprint], "C06": [bloom_histories, sketch_histories],
+    "C01": [bloom_histories, expanding_full_boundary], "C02": [sketch_histories], "C03": [cuckoo_histories],
+    "C05": [bloom_histories, sketch_histories, cuckoo_histories, cuckoo_zero_fingerprint, expanding_full_boundary,
+            cuckoo_error_rate_roundtrip],
+    "C06": [bloom_histories, sketch_histories], "C09": [expanding_full_boundary],
     "C08": [counting_histories, cuckoo_histories], "C14": [bloom_histories, sketch_histories, cuckoo_histories, counting_histories],
     "C15": [cuckoo_histories], "C17": [sketch_histories], "C16": [sketch_histories],
 }
